@@ -170,7 +170,7 @@ class SignedBytes(Obligation):
                 rec['viol']={'kind':'signed_bytes_not_decodable','known_key':None,'scenario':self.scn(run,g,m,mv),'predicted':'match','what':'signed bytes cannot be read back (after undoing the newline substitution): '+str(node)}; return rec
             r,m=run.check_sat(z3.Not(jp.same(g['tree'],node)))
             if r==z3.sat:
-                rec['viol']={'kind':'field_not_recoverable_from_signed_bytes','known_key':None,'scenario':self.scn(run,g,m,mv),'predicted':'match','what':'the signed bytes do not determine every observable field (decode(signed_bytes(x)) != x)'}; return rec
+                rec['viol']={'kind':'field_not_recoverable_from_signed_bytes','confirm':{'decoded_equals_tree':False},'known_key':None,'scenario':self.scn(run,g,m,mv),'predicted':'match','what':'the signed bytes do not determine every observable field (decode(signed_bytes(x)) != x)'}; return rec
             wit('verified_bytes_read_back'); wit('sign_and_verify_bytes_equal')
         if self.prop=='C11':
             rec['obl']+=1
